@@ -5,3 +5,38 @@ from ..tables import t67_transforms as T
 
 def run(ctx: Ctx) -> None:
     T.run_inverse(ctx)
+    ctx.floor("T67.inverse", 200)
+    ctx.floor("T67.inverse-velocity", 30)
+
+
+def mutants(prog):
+    from .common import source_sub
+    L, C, P, N, S, F = ("deepali.spatial.linear", "deepali.spatial.composite", "deepali.spatial.parametric", "deepali.spatial.nonrigid",
+                        "deepali.spatial.bspline", "deepali.modules.flow")
+    specs = [
+        ("translation ignores invert", L, "Translation.tensor", "if self.invert:", "if False:", "class=Translation"),
+        ("euler negates angles", L, "EulerRotation.tensor", "mat = U.euler_rotation_matrix(self.angles(), order=self.order)\n    if self.invert:\n        mat = mat.transpose(1, 2)", "angles = self.angles()\n    if self.invert:\n        angles = -angles\n    mat = U.euler_rotation_matrix(angles, order=self.order)", "class=EulerRotation D=3"),
+        ("quaternion no transpose", L, "QuaternionRotation.tensor", "mat = mat.transpose(1, 2)", "mat = mat", "QuaternionRotation"),
+        ("iso scaling negates", L, "IsotropicScaling.tensor", "scales = 1 / scales", "scales = -scales", "IsotropicScaling"),
+        ("aniso scaling ignores invert", L, "AnisotropicScaling.tensor", "if self.invert:", "if False:", "AnisotropicScaling"),
+        ("shearing transposes", L, "Shearing.tensor", "mat = torch.inverse(mat)", "mat = mat.transpose(1, 2)", "Shearing"),
+        ("homogeneous drops row", L, "HomogeneousTransform.tensor", "matrix = torch.inverse(matrix)", "matrix = matrix.transpose(1, 2)", "HomogeneousTransform"),
+        ("sequential inverse keeps order", C, "SequentialTransform.inverse", "for name, transform in reversed(self.named_transforms()):", "for name, transform in self.named_transforms():", "T67.inverse"),
+        ("sequential inverse drops link", C, "SequentialTransform.inverse", "transform.inverse(link=link, update_buffers=update_buffers)", "transform.inverse(update_buffers=update_buffers)", "T67.inverse"),
+        ("inverse does not toggle", P, "InvertibleParametricTransform.inverse", "inv.invert = not self.invert", "inv.invert = True", "T67.inverse"),
+        ("inverse drops link", P, "InvertibleParametricTransform.inverse", "if link:\n        inv.link_(self)", "pass", "T67.inverse"),
+        ("link copies parameters", P, "ParametricTransform.link_", "self.params = other", "self.params = other.params", "T67.inverse"),
+        ("link: shared container", P, "ParametricTransform.link_", "self._parameters = self._parameters.copy()", "pass", "T67.inverse"),
+        ("has_parameters of link", P, "ParametricTransform.has_parameters", "return params.has_parameters()", "return False", "T67.inverse"),
+        ("update ignores link", P, "ParametricTransform.update", "p = self._data()", "p = self.p", "T67.inverse"),
+        ("svf inverse drops link", N, "StationaryVelocityFieldTransform.inverse", "if link:\n        inv.link_(self)", "pass", "T67.inverse-velocity"),
+        ("svffd inverse drops link", S, "StationaryVelocityFreeFormDeformation.inverse", "if link:\n        inv.link_(self)", "pass", "T67.inverse-velocity"),
+        ("svf inverse shares exp", N, "StationaryVelocityFieldTransform.inverse", "inv.exp = cast(ExpFlow, self.exp).inverse()", "inv.exp.scale *= -1", "T67.inverse-velocity"),
+        ("svffd no buffer update", S, "StationaryVelocityFreeFormDeformation.inverse", "if update_buffers:", "if False:", "T67.inverse-velocity"),
+        ("expflow inverse in place", F, "ExpFlow.inverse", "copy = shallow_copy(self)", "copy = self", "T67.inverse-velocity"),
+        ("expflow inverse no negation", F, "ExpFlow.inverse", "copy.scale *= -1", "copy.scale *= 1", "T67.inverse-velocity"),
+        ("inv shortcut unlinked", "deepali.spatial.base", "SpatialTransform.inv", "return self.inverse(link=True, update_buffers=True)", "return self.inverse(link=False, update_buffers=False)", "via=inv"),
+    ]
+    for name, mod, fn, old, new, expect in specs:
+        ov = source_sub(prog, mod, fn, old, new)
+        yield (name if ov is not None else name + " [spec does not apply]", ov, expect)
